@@ -191,7 +191,11 @@ Proof.
   - intros H E. rewrite (IH i H E). reflexivity.
 Qed.
 
+Lemma Some_inj {A} (x y : A) : Some x = Some y -> x = y.
+Proof. congruence. Qed.
+
 Definition pclass (p : phase) := (ph_polled p, ph_aband p, ph_closing p, ph_done p).
+Arguments pclass : simpl never.
 
 Lemma cP_gW_le_gA l id : (cP gW l id <= cP gA l id)%nat.
 Proof.
@@ -1571,7 +1575,7 @@ Section MRel.
     - congruence.
     - intros j p Hj. destruct (Nat.eq_dec j i) as [->|Hne]; [apply Di, Hj|].
       specialize (C3 j Hne). rewrite !nth_error_cls, Hj in C3. cbn in C3.
-      destruct (ph s j) as [p0|] eqn:Hp0; [|discriminate]. cbn in C3. injection C3 as C3.
+      destruct (ph s j) as [p0|] eqn:Hp0; [|discriminate]. cbn in C3. apply Some_inj in C3.
       pose proof (R3 j p0 Hp0) as D. apply (disc_pclass m' j p0 p C3).
       destruct (Ag j Hne) as (A1 & A2 & A3 & A4). destruct D as [D1 D2 D3 D4].
       constructor; rewrite ?A1, ?A2, ?A3, ?A4; assumption.
@@ -1594,7 +1598,7 @@ Section MRel.
     - intros p Hp. assert (Hp0 : ph s 0 = Some p \/ exists p0, ph s 0 = Some p0 /\ pclass p = pclass p0).
       { pose proof (f_equal (fun l => nth_error l 0) Ec) as E. cbn beta in E.
         rewrite !nth_error_cls, Hp in E. cbn in E. destruct (ph s 0) as [p0|]; [|discriminate].
-        right. exists p0. cbn in E. injection E as E. auto. }
+        right. exists p0. cbn in E. apply Some_inj in E. auto. }
       destruct Hp0 as [Hp0|(p0 & Hp0 & Ep)].
       + destruct (mr_phase _ _ R 0 p Hp0) as [D1 D2 D3 D4].
         constructor; unfold done_idx; rewrite ?M3, ?M4, ?M5, ?M6; assumption.
@@ -1637,10 +1641,11 @@ Section MRel.
       { intros _. unfold pl. destruct cnd; [left; reflexivity|right].
         rewrite mem_nat_app, mem_nat_single, Nat.eqb_refl. apply orb_true_r. }
       assert (Hnew : p0 = PNew -> mem_nat i pl = true).
-      { intros ->. unfold pl, cnd. rewrite (D1 false eq_refl), D2, D3, Hi. cbn.
+      { intros ->. unfold pl, cnd. rewrite (D1 false eq_refl), D2, D3, Hi.
+        cbn [ph_aband ph_closing orb].
         rewrite mem_nat_app, mem_nat_single, Nat.eqb_refl. apply orb_true_r. }
       assert (Hold : forall b, ph_polled p0 = Some b -> b = true -> mem_nat i pl = true).
-      { intros b Hb ->. unfold pl, cnd. rewrite (D1 true Hb). reflexivity. }
+      { intros b Hb ->. unfold pl, cnd. rewrite (D1 true Hb). cbn [orb]. apply (D1 true Hb). }
       destruct r as [|o|].
       + (* CPending *)
         destruct E as [E0 E1]. unfold chk_obs. cbn [snd].
@@ -1692,7 +1697,7 @@ Section MRel.
           cbn [m_done upd_m]. fold cnd. fold pl. rewrite (Ag j Hne). auto.
         * intros p Hp'. rewrite E1 in Hp'. injection Hp' as <-.
           constructor; cbn [rec_op m_polled m_abandoned m_closing upd_m]; unfold done_idx;
-            cbn [m_done upd_m]; fold cnd; fold pl; fold (done_idx m i); unfold pl; rewrite Hc; assumption.
+            cbn [m_done upd_m]; fold cnd; fold pl; fold (done_idx m i); unfold pl; rewrite ?Hc; assumption.
         * intro Hn. congruence.
     - destruct E as [-> E1]. unfold chk_obs. cbn [snd].
       destruct (mr_none _ _ R i Hp) as (N1 & N2 & N3 & N4).
@@ -1708,4 +1713,558 @@ Section MRel.
       + intros _. cbn [rec_op m_polled m_abandoned m_closing upd_m]. unfold done_idx.
         cbn [m_done upd_m]. fold cnd. fold pl. fold (done_idx m i). unfold pl. rewrite Hc. auto.
   Qed.
+
+  (* ---------------------------------------------------------------- DropCall / GuardClose / GuardCancel *)
+  Lemma ph_option_map s i : option_map c_phase (nth_error (calls s) i) = ph s i.
+  Proof. reflexivity. Qed.
+
+  Lemma Mrel_drop_call m s i :
+    Mrel m s -> winv s ->
+    Mrel (rec_op (T := T) m (DropCall i))
+         (match option_map c_phase (nth_error (calls s) i) with
+          | Some PClosing => s
+          | _ => guard_cancel (guard_close s i) i
+          end).
+  Proof.
+    intros R W. rewrite ph_option_map.
+    destruct (guard_close_eff s i W) as [C1 P1].
+    destruct (guard_cancel_eff (guard_close s i) i) as [C2 P2]. rewrite P1 in P2.
+    pose proof (Ch_trans _ _ _ _ C1 C2) as C.
+    cbn [rec_op].
+    set (cnd := (length (m_calls m) <=? i)%nat || done_idx m i || mem_nat i (m_abandoned m)
+                || mem_nat i (m_closing m)).
+    destruct (ph s i) as [p0|] eqn:Hp.
+    - pose proof (mr_phase _ _ R i p0 Hp) as [D1 D2 D3 D4].
+      assert (Hi : (length (m_calls m) <=? i)%nat = false).
+      { apply Nat.leb_gt. rewrite (mr_len _ _ R). apply ph_lt. congruence. }
+      assert (Hc : cnd = ph_done p0 || ph_aband p0 || ph_closing p0).
+      { unfold cnd. rewrite Hi, D2, D3, D4. reflexivity. }
+      assert (Same : cnd = true -> forall s', handles s' = handles s -> cls s' = cls s ->
+                     Mrel (if cnd then m else upd_m m (m_now m) (m_calls m) (m_done m) (m_abandoned m ++ [i])
+                             (m_closing m) (m_polled m) (m_disp m) (m_disp_dropped m) (m_handles m)
+                             (m_contract m)) s').
+      { intros -> s' E1 E2. eapply Mrel_same; try eassumption; reflexivity. }
+      assert (Gone : cnd = false -> gx_phase (gc_phase (Some p0)) = Some PGone ->
+                     Mrel (if cnd then m else upd_m m (m_now m) (m_calls m) (m_done m) (m_abandoned m ++ [i])
+                             (m_closing m) (m_polled m) (m_disp m) (m_disp_dropped m) (m_handles m)
+                             (m_contract m)) (guard_cancel (guard_close s i) i)).
+      { intros Hf Hg. rewrite Hf. rewrite Hc in Hf.
+        apply orb_false_iff in Hf. destruct Hf as [Hf F3]. apply orb_false_iff in Hf. destruct Hf as [F1 F2].
+        eapply (Mrel_at m _ s _ i R C); try reflexivity.
+        - intros j Hne. cbn [m_polled m_abandoned m_closing upd_m]. unfold done_idx. cbn [m_done upd_m].
+          rewrite mem_nat_app, mem_nat_single. destruct (Nat_eqb_neq' i j Hne) as [-> _].
+          rewrite orb_false_r. auto.
+        - intros p Hp'. rewrite P2, Hg in Hp'. injection Hp' as <-.
+          constructor; cbn [m_polled m_abandoned m_closing upd_m ph_polled ph_aband ph_closing ph_done];
+            unfold done_idx; cbn [m_done upd_m]; fold (done_idx m i).
+          + discriminate.
+          + rewrite mem_nat_app, mem_nat_single, Nat.eqb_refl. apply orb_true_r.
+          + rewrite D3. exact F3.
+          + rewrite D4. exact F1.
+        - intro Hn. rewrite P2, Hg in Hn. discriminate. }
+      destruct p0; cbn [ph_done ph_aband ph_closing orb] in Hc; try (apply (Gone Hc); reflexivity).
+      + apply (Same Hc); reflexivity.
+      + apply (Same Hc).
+        * apply C.
+        * apply (f_equal (@Some _)) in P2. clear - C P2 Hp.
+          (* PDone: both halves are no-ops *)
+          unfold guard_cancel, guard_close in *. unfold ph in Hp.
+          destruct (nth_error (calls s) i) as [k|] eqn:Hk; [|discriminate]. cbn in Hp.
+          injection Hp as Hp. rewrite Hp. rewrite Hk, Hp. reflexivity.
+      + apply (Same Hc).
+        * apply C.
+        * unfold guard_cancel, guard_close in *. unfold ph in Hp.
+          destruct (nth_error (calls s) i) as [k|] eqn:Hk; [|discriminate]. cbn in Hp.
+          injection Hp as Hp. rewrite Hp. rewrite Hk, Hp. reflexivity.
+    - destruct (mr_none _ _ R i Hp) as (N1 & N2 & N3 & N4).
+      assert (Hc : cnd = true).
+      { unfold cnd. assert (X : (length (m_calls m) <=? i)%nat = true).
+        { apply Nat.leb_le. rewrite (mr_len _ _ R). apply Nat.nlt_ge. intro Hlt.
+          apply ph_lt in Hlt. congruence. }
+        rewrite X. reflexivity. }
+      rewrite Hc. eapply Mrel_same; try exact R; try reflexivity.
+      + apply C.
+      + unfold guard_cancel, guard_close. unfold ph in Hp.
+        destruct (nth_error (calls s) i) as [k|] eqn:Hk; [discriminate|]. rewrite Hk. reflexivity.
+  Qed.
+
+  Lemma guard_close_noop s i :
+    ph s i = None \/ ph s i = Some PClosing \/ ph s i = Some PDone \/ ph s i = Some PGone ->
+    guard_close s i = s.
+  Proof.
+    unfold guard_close, ph. destruct (nth_error (calls s) i) as [k|]; [|reflexivity]. cbn.
+    intros [H|[H|[H|H]]]; try discriminate; injection H as ->; reflexivity.
+  Qed.
+  Lemma guard_cancel_noop s i : ph s i <> Some PClosing -> guard_cancel s i = s.
+  Proof.
+    unfold guard_cancel, ph. destruct (nth_error (calls s) i) as [k|]; [|reflexivity]. cbn.
+    intro H. destruct (c_phase k); try reflexivity. congruence.
+  Qed.
+
+  Lemma Mrel_guard_close m s i :
+    Mrel m s -> winv s ->
+    Mrel (rec_op (T := T) m (GuardClose i))
+         (match option_map c_phase (nth_error (calls s) i) with
+          | Some PClosing => s
+          | _ => guard_close s i
+          end).
+  Proof.
+    intros R W. rewrite ph_option_map.
+    destruct (guard_close_eff s i W) as [C P1].
+    cbn [rec_op].
+    set (cnd := (length (m_calls m) <=? i)%nat || done_idx m i || mem_nat i (m_abandoned m)
+                || mem_nat i (m_closing m)).
+    destruct (ph s i) as [p0|] eqn:Hp.
+    - pose proof (mr_phase _ _ R i p0 Hp) as [D1 D2 D3 D4].
+      assert (Hi : (length (m_calls m) <=? i)%nat = false).
+      { apply Nat.leb_gt. rewrite (mr_len _ _ R). apply ph_lt. congruence. }
+      assert (Hc : cnd = ph_done p0 || ph_aband p0 || ph_closing p0).
+      { unfold cnd. rewrite Hi, D2, D3, D4. reflexivity. }
+      assert (Same : cnd = true -> forall X s', s' = s ->
+                     Mrel (if cnd then m else X) s').
+      { intros -> X s' ->. exact R. }
+      assert (Live' : cnd = false -> ph_polled p0 = Some true -> gc_phase (Some p0) = Some PClosing ->
+                      Mrel (if cnd then m else
+                              if mem_nat i (m_polled m)
+                              then upd_m m (m_now m) (m_calls m) (m_done m) (m_abandoned m)
+                                         (m_closing m ++ [i]) (m_polled m) (m_disp m) (m_disp_dropped m)
+                                         (m_handles m) (m_contract m)
+                              else upd_m m (m_now m) (m_calls m) (m_done m) (m_abandoned m ++ [i])
+                                         (m_closing m) (m_polled m) (m_disp m) (m_disp_dropped m)
+                                         (m_handles m) (m_contract m)) (guard_close s i)).
+      { intros Hf Hpol Hg. rewrite Hf, (D1 true Hpol). rewrite Hc in Hf.
+        apply orb_false_iff in Hf. destruct Hf as [Hf F3]. apply orb_false_iff in Hf. destruct Hf as [F1 F2].
+        eapply (Mrel_at m _ s _ i R C); try reflexivity.
+        - intros j Hne. cbn [m_polled m_abandoned m_closing upd_m]. unfold done_idx. cbn [m_done upd_m].
+          rewrite mem_nat_app, mem_nat_single. destruct (Nat_eqb_neq' i j Hne) as [-> _].
+          rewrite orb_false_r. auto.
+        - intros p Hp'. rewrite P1, Hg in Hp'. injection Hp' as <-.
+          constructor; cbn [m_polled m_abandoned m_closing upd_m ph_polled ph_aband ph_closing ph_done];
+            unfold done_idx; cbn [m_done upd_m]; fold (done_idx m i).
+          + intros b [= <-]. apply (D1 true Hpol).
+          + rewrite D2. exact F2.
+          + rewrite mem_nat_app, mem_nat_single, Nat.eqb_refl. apply orb_true_r.
+          + rewrite D4. exact F1.
+        - intro Hn. rewrite P1, Hg in Hn. discriminate. }
+      destruct p0; cbn [ph_done ph_aband ph_closing orb] in Hc;
+        try (apply (Live' Hc); reflexivity).
+      + (* PNew *)
+        rewrite Hc, (D1 false eq_refl).
+        eapply (Mrel_at m _ s _ i R C); try reflexivity.
+        * intros j Hne. cbn [m_polled m_abandoned m_closing upd_m]. unfold done_idx. cbn [m_done upd_m].
+          rewrite mem_nat_app, mem_nat_single. destruct (Nat_eqb_neq' i j Hne) as [-> _].
+          rewrite orb_false_r. auto.
+        * intros p Hp'. rewrite P1 in Hp'. cbn in Hp'. injection Hp' as <-.
+          constructor; cbn [m_polled m_abandoned m_closing upd_m ph_polled ph_aband ph_closing ph_done];
+            unfold done_idx; cbn [m_done upd_m]; fold (done_idx m i).
+          -- discriminate.
+          -- rewrite mem_nat_app, mem_nat_single, Nat.eqb_refl. apply orb_true_r.
+          -- exact D3.
+          -- exact D4.
+        * intro Hn. rewrite P1 in Hn. discriminate.
+      + apply (Same Hc). reflexivity.
+      + apply (Same Hc). apply guard_close_noop. auto.
+      + apply (Same Hc). apply guard_close_noop. auto.
+    - assert (Hc : cnd = true).
+      { unfold cnd. assert (X : (length (m_calls m) <=? i)%nat = true).
+        { apply Nat.leb_le. rewrite (mr_len _ _ R). apply Nat.nlt_ge. intro Hlt.
+          apply ph_lt in Hlt. congruence. }
+        rewrite X. reflexivity. }
+      rewrite Hc. rewrite guard_close_noop by auto. exact R.
+  Qed.
+
+  Lemma Mrel_guard_cancel m s i :
+    Mrel m s -> Mrel (rec_op (T := T) m (GuardCancel i)) (guard_cancel s i).
+  Proof.
+    intros R. destruct (guard_cancel_eff s i) as [C P1]. cbn [rec_op].
+    destruct (ph s i) as [p0|] eqn:Hp.
+    - pose proof (mr_phase _ _ R i p0 Hp) as [D1 D2 D3 D4]. rewrite D3.
+      destruct p0; cbn [ph_closing]; try (rewrite guard_cancel_noop by congruence; exact R).
+      eapply (Mrel_at m _ s _ i R C); try reflexivity.
+      + intros j Hne. cbn [m_polled m_abandoned m_closing upd_m]. unfold done_idx. cbn [m_done upd_m].
+        rewrite mem_nat_app, mem_nat_single, mem_nat_filter_neq.
+        destruct (Nat_eqb_neq' i j Hne) as [-> _]. rewrite orb_false_r, andb_true_r. auto.
+      + intros p Hp'. rewrite P1 in Hp'. cbn in Hp'. injection Hp' as <-.
+        constructor; cbn [m_polled m_abandoned m_closing upd_m ph_polled ph_aband ph_closing ph_done];
+          unfold done_idx; cbn [m_done upd_m]; fold (done_idx m i).
+        * discriminate.
+        * rewrite mem_nat_app, mem_nat_single, Nat.eqb_refl. apply orb_true_r.
+        * rewrite mem_nat_filter_neq, Nat.eqb_refl. apply andb_false_r.
+        * exact D4.
+      + intro Hn. rewrite P1 in Hn. discriminate.
+    - destruct (mr_none _ _ R i Hp) as (N1 & N2 & N3 & N4). rewrite N3.
+      rewrite guard_cancel_noop by congruence. exact R.
+  Qed.
+
+  (* ---------------------------------------------------------------- Call, handles, the rest *)
+  Lemma set_nth_b_eq n x l : set_nth_b n x l = set_nth n x l.
+  Proof. revert n; induction l as [|y r IH]; intros [|n]; cbn; try reflexivity. rewrite IH. reflexivity. Qed.
+
+  Lemma Mrel_handles m m' s s' hs :
+    Mrel m s -> m_handles m' = hs -> handles s' = hs -> calls s' = calls s ->
+    m_calls m' = m_calls m -> m_polled m' = m_polled m ->
+    m_abandoned m' = m_abandoned m -> m_closing m' = m_closing m -> m_done m' = m_done m ->
+    Mrel m' s'.
+  Proof.
+    intros [R1 R2 R3 R4] E1 E2 E3 M2 M3 M4 M5 M6.
+    constructor; unfold ph, done_idx in *; rewrite ?E3, ?M2, ?M3, ?M4, ?M5, ?M6; try assumption.
+    - congruence.
+    - intros i p Hp. destruct (R3 i p Hp) as [D1 D2 D3 D4].
+      constructor; unfold done_idx; rewrite ?M3, ?M4, ?M5, ?M6; assumption.
+  Qed.
+
+  Lemma Mrel_call m s h d tid smp body :
+    Mrel m s ->
+    Mrel (rec_op (T := T) m (Call h d tid smp body))
+         (upd_calls s (calls s ++
+            [{| c_handle := h;
+                c_phase := match nth_error (handles s) h with Some true => PNew | _ => PGone end;
+                c_id := 0; c_rel := d; c_deadline := (now s + d)%N;
+                c_tc := {| tc_tid := tid; tc_sid := 0; tc_sampled := smp |}; c_body := body |}])).
+  Proof.
+    intros R. pose proof R as [R1 R2 R3 R4]. cbn [rec_op]. rewrite R1.
+    set (n := length (m_calls m)).
+    set (alive := match nth_error (handles s) h with Some true => true | _ => false end).
+    set (p0 := match nth_error (handles s) h with Some true => PNew | _ => PGone end).
+    assert (Hal : p0 = if alive then PNew else PGone).
+    { unfold p0, alive. destruct (nth_error (handles s) h) as [[|]|]; reflexivity. }
+    set (knew := {| c_handle := h; c_phase := p0; c_id := 0; c_rel := d; c_deadline := (now s + d)%N;
+                    c_tc := {| tc_tid := tid; tc_sid := 0; tc_sampled := smp |}; c_body := body |}).
+    set (s' := upd_calls s (calls s ++ [knew])).
+    assert (Hn : n = length (calls s)) by exact R2.
+    assert (Pn : ph s n = None).
+    { destruct (ph s n) eqn:E; [|reflexivity]. exfalso.
+      assert (X : ph s n <> None) by congruence. apply ph_lt in X. lia. }
+    destruct (R4 n Pn) as (N1 & N2 & N3 & N4).
+    assert (Eph : forall i, ph s' i = if Nat.eqb i n then Some p0 else ph s i).
+    { intro i. unfold ph, s'. cbn [calls upd_calls]. destruct (Nat.eqb i n) eqn:E.
+      - apply Nat.eqb_eq in E. subst i. rewrite Hn, nth_error_app_last. reflexivity.
+      - apply Nat.eqb_neq in E. destruct (Nat.lt_ge_cases i (length (calls s))) as [Hl|Hg].
+        + rewrite nth_error_app1 by exact Hl. reflexivity.
+        + rewrite (proj2 (nth_error_None (calls s ++ [knew]) i)) by (rewrite app_length; cbn; lia).
+          rewrite (proj2 (nth_error_None (calls s) i)) by lia. reflexivity. }
+    assert (Eab : forall i, mem_nat i (if alive then m_abandoned m else m_abandoned m ++ [n])
+                            = mem_nat i (m_abandoned m) || (negb alive && Nat.eqb i n)).
+    { intro i. destruct alive; cbn [negb andb]; [rewrite orb_false_r; reflexivity|].
+      rewrite mem_nat_app, mem_nat_single. reflexivity. }
+    constructor.
+    - cbn [m_handles upd_m]. reflexivity.
+    - cbn [m_calls upd_m]. unfold s'. cbn [calls upd_calls]. rewrite !app_length. cbn. lia.
+    - intros i p Hp. rewrite Eph in Hp. destruct (Nat.eqb i n) eqn:E.
+      + apply Nat.eqb_eq in E. subst i. injection Hp as <-.
+        constructor; cbn [m_polled m_abandoned m_closing upd_m]; unfold done_idx; cbn [m_done upd_m];
+          fold (done_idx m n); fold alive; rewrite ?Eab, ?Nat.eqb_refl, ?N1, ?N2, ?N3, ?N4, Hal;
+          destruct alive; cbn; try reflexivity; try discriminate.
+        intros b [= <-]. reflexivity.
+      + destruct (R3 i p Hp) as [D1 D2 D3 D4].
+        constructor; cbn [m_polled m_abandoned m_closing upd_m]; unfold done_idx; cbn [m_done upd_m];
+          fold (done_idx m i); fold alive; rewrite ?Eab, ?E, ?andb_false_r, ?orb_false_r; assumption.
+    - intros i Hp. rewrite Eph in Hp. destruct (Nat.eqb i n) eqn:E; [discriminate|].
+      destruct (R4 i Hp) as (A1 & A2 & A3 & A4).
+      cbn [m_polled m_abandoned m_closing upd_m]. unfold done_idx. cbn [m_done upd_m].
+      fold (done_idx m i). fold alive. rewrite Eab, E, andb_false_r, orb_false_r. auto.
+  Qed.
 End MRel.
+
+(* ================================================================== assembly *)
+Section Top.
+  Context {T : Type}.
+  Variable tp : transport T cmsg resp.
+  Notation cstate := (@cstate T).
+  Implicit Types (s : cstate) (m : mst).
+  Variable fuel_of : cstate -> nat.
+
+  Definition inact s : bool :=
+    match finished s, dropped s with None, false => false | _, _ => true end.
+
+  Definition J m s : Prop :=
+    inact s = true \/ (terminal s <> None /\ inflight s = []) \/
+    (terminal s = None /\ Live s /\ Mrel m s).
+
+  (* ---------------------------------------------------------------- small model facts *)
+  Lemma inflight_fold_slot_send {A} (f : A -> N) o (l : list A) s :
+    inflight (fold_left (fun acc p => slot_send acc (f p) o) l s) = inflight s.
+  Proof.
+    revert s; induction l as [|x r IH]; intro s; cbn [fold_left]; [reflexivity|].
+    rewrite IH. apply (qf_inflight _ _ (QFrame_slot_send s (f x) o)).
+  Qed.
+  Lemma inflight_shut_down s a : inflight (snd (shut_down s a)) = [].
+  Proof.
+    unfold shut_down. rewrite (qf_inflight _ _ (QFrame_drain_loop _ a _)).
+    unfold complete_all. rewrite (inflight_fold_slot_send (A := N * ifentry) fst). reflexivity.
+  Qed.
+
+  Lemma nid_set_phase s i p : next_id (set_phase s i p) = next_id s.
+  Proof. rewrite set_phase_alt. reflexivity. Qed.
+  Lemma nid_fail_shutdown s i id : next_id (snd (fail_shutdown s i id)) = next_id s.
+  Proof. unfold fail_shutdown. cbn [snd]. rewrite nid_set_phase, push_cancel_alt. reflexivity. Qed.
+  Lemma nid_poll_slot s i id : next_id (snd (poll_slot s i id)) = next_id s.
+  Proof.
+    unfold poll_slot. destruct (sl_val _); cbn [snd]; [rewrite nid_set_phase; reflexivity|].
+    destruct (sl_tx_gone _); cbn [snd]; [rewrite nid_set_phase; reflexivity|reflexivity].
+  Qed.
+  Lemma nid_enqueue s i c id tc : next_id (snd (enqueue s i c id tc)) = next_id s.
+  Proof. unfold enqueue. rewrite nid_poll_slot, nid_set_phase. reflexivity. Qed.
+  Lemma nid_poll_call s i :
+    (next_id s + 1 < two64)%N ->
+    (next_id s <= next_id (snd (poll_call s i)) <= next_id s + 1)%N.
+  Proof.
+    intro Hw. unfold poll_call. destruct (nth_error (calls s) i) as [k|]; [|cbn; lia].
+    destruct (c_phase k); try (cbn [snd]; lia).
+    - cbn zeta. set (s1 := set_slot _ (next_id s) slot0).
+      assert (E : next_id s1 = (next_id s + 1)%N).
+      { unfold s1. cbn [next_id set_slot upd_slots with_id upd_calls upd_misc]. apply N.mod_small, Hw. }
+      destruct (rx_closed s1); [rewrite nid_fail_shutdown; lia|].
+      destruct (permits s1); [cbn [snd]; rewrite nid_set_phase; cbn [next_id upd_q]; lia|].
+      rewrite nid_enqueue. cbn [next_id upd_q]. lia.
+    - destruct (rx_closed s); [rewrite nid_fail_shutdown; cbn [next_id upd_q]; lia|].
+      rewrite nid_enqueue. lia.
+    - rewrite nid_fail_shutdown. lia.
+    - rewrite nid_poll_slot. lia.
+  Qed.
+  Lemma nid_guard_close s i : next_id (guard_close s i) = next_id s.
+  Proof.
+    unfold guard_close. destruct (nth_error (calls s) i) as [k|]; [|reflexivity].
+    destruct (c_phase k); try reflexivity; try (rewrite nid_set_phase; reflexivity).
+    set (s1 := set_phase s i PClosing).
+    assert (E : next_id s1 = next_id s) by apply nid_set_phase.
+    destruct (rx_closed s1); cbn [next_id slot_rx_close slot_tx_drop set_slot upd_slots upd_q];
+      [exact E|]. destruct (release_permit_other s1) as (_ & _ & _ & _ & R5 & _). congruence.
+  Qed.
+  Lemma nid_guard_cancel s i : next_id (guard_cancel s i) = next_id s.
+  Proof.
+    unfold guard_cancel. destruct (nth_error (calls s) i) as [k|]; [|reflexivity].
+    destruct (c_phase k); try reflexivity. rewrite nid_set_phase, push_cancel_alt. reflexivity.
+  Qed.
+
+  Lemma nid_poll_dispatch f s r s' : poll_dispatch tp f s = (r, s') -> next_id s' = next_id s.
+  Proof.
+    unfold poll_dispatch. intro H. destruct (terminal s).
+    - pose proof (IFrame_shut_down s a) as F. destruct (shut_down s a) as [b s1]. cbn [snd] in F.
+      destruct b; injection H as _ <-; apply F.
+    - destruct (run_loop tp f s) as [rr s1] eqn:E. apply PFrame_run_loop in E.
+      destruct rr; try (injection H as _ <-; apply E).
+      pose proof (IFrame_shut_down (upd_term s1 (Some a)) a) as F.
+      destruct (shut_down _ a) as [b s2]. cbn [snd] in F.
+      destruct b; injection H as _ <-; rewrite (pf_nid _ _ (if_p _ _ F)); apply E.
+  Qed.
+
+  Lemma nid_step s o s' os :
+    (next_id s + 1 < two64)%N -> step tp fuel_of s o = (s', os) ->
+    (next_id s <= next_id s' <= next_id s + 1)%N.
+  Proof.
+    intros Hw H. destruct o; cbn [step] in H.
+    - injection H as <- _. destruct (nth_error _ _) as [[|]|]; cbn; lia.
+    - injection H as <- _. destruct (nth_error _ _) as [[|]|]; cbn; lia.
+    - injection H as <- _. cbn. lia.
+    - pose proof (nid_poll_call s i Hw) as X. destruct (poll_call s i) as [r s1].
+      injection H as <- _. exact X.
+    - injection H as <- _. destruct (option_map _ _) as [[]|];
+        rewrite ?nid_guard_cancel, ?nid_guard_close; lia.
+    - injection H as <- _. destruct (option_map _ _) as [[]|]; rewrite ?nid_guard_close; lia.
+    - injection H as <- _. rewrite nid_guard_cancel. lia.
+    - destruct (finished s); [injection H as <- _; lia|].
+      destruct (dropped s); [injection H as <- _; lia|].
+      destruct (poll_dispatch tp _ _) as [r s1] eqn:Ep. apply nid_poll_dispatch in Ep.
+      injection H as <- _. cbn [next_id upd_tr] in *.
+      assert (X : next_id (match r with DReady d => upd_fin s1 (Some d) (dropped s1) | _ => s1 end)
+                  = next_id s1) by (destruct r; reflexivity).
+      rewrite X, Ep. cbn. lia.
+    - injection H as <- _. destruct (dropped s); [lia|]. unfold drop_dispatch.
+      cbn [next_id upd_fin upd_cancels upd_if upd_q].
+      rewrite (pf_nid _ _ (TFrame_P _ _ (TFrame_fold_slot_tx_drop fst _ _))).
+      rewrite (pf_nid _ _ (TFrame_P _ _ (TFrame_fold_slot_tx_drop q_id _ _))).
+      rewrite (pf_nid _ _ (if_p _ _ (IFrame_q_close s))). lia.
+    - injection H as <- _. cbn. lia.
+    - injection H as <- _. cbn. lia.
+  Qed.
+
+  Lemma chk_calls_v11 maxif l : forall m, v11 (fst (chk_calls maxif m l)) = true.
+  Proof.
+    induction l as [|x r IH]; intro m; cbn [chk_calls]; [reflexivity|].
+    specialize (IH (rec_call m x)). destruct (chk_calls maxif (rec_call m x) r) as [v' m'].
+    cbn [fst] in *. cbn [vand v11]. rewrite IH.
+    destruct x as [r0|[] r0|r0|r0|[]]; reflexivity.
+  Qed.
+
+  Lemma Mrel_step_user maxif m s o s' os :
+    Mrel m s -> winv s -> step tp fuel_of s o = (s', os) ->
+    o <> PollDispatch -> o <> DropDispatch -> Mrel (snd (chk_obs maxif o m os)) s'.
+  Proof.
+    intros R W H N1 N2. destruct o; cbn [step] in H; try congruence.
+    - injection H as <- <-. unfold chk_obs. cbn [snd rec_op]. rewrite (mr_handles _ _ R).
+      destruct (nth_error (handles s) h) as [[|]|]; try exact R.
+      eapply (Mrel_handles m _ s _ (handles s ++ [true]) R); reflexivity.
+    - injection H as <- <-. unfold chk_obs. cbn [snd rec_op]. rewrite (mr_handles _ _ R).
+      destruct (nth_error (handles s) h) as [[|]|]; try exact R.
+      eapply (Mrel_handles m _ s _ (set_nth h false (handles s)) R); try reflexivity.
+      cbn [m_handles upd_m]. apply set_nth_b_eq.
+    - injection H as <- <-. unfold chk_obs. cbn [snd]. apply Mrel_call, R.
+    - destruct (poll_call s i) as [r s1] eqn:E. injection H as <- <-.
+      apply (Mrel_poll_call maxif m s i r s1 R E).
+    - injection H as <- <-. unfold chk_obs. cbn [snd]. apply Mrel_drop_call; assumption.
+    - injection H as <- <-. unfold chk_obs. cbn [snd]. apply Mrel_guard_close; assumption.
+    - injection H as <- <-. unfold chk_obs. cbn [snd]. apply Mrel_guard_cancel; assumption.
+    - injection H as <- <-. unfold chk_obs. cbn [snd rec_op].
+      eapply Mrel_same; try exact R; reflexivity.
+    - injection H as <- <-. unfold chk_obs. cbn [snd rec_op].
+      eapply Mrel_same; try exact R; reflexivity.
+  Qed.
+
+  Lemma inact_U s s' : UFrame s s' -> inact s' = inact s.
+  Proof. intro F. unfold inact. rewrite (uf_finished _ _ F), (uf_dropped _ _ F). reflexivity. Qed.
+
+  (* all calls are done or abandoned, as the observer sees it *)
+  Lemma all_dead m s :
+    Mrel m s ->
+    forallb (fun i => done_idx m i || mem_nat i (m_abandoned m)) (seq 0 (length (m_calls m))) = true ->
+    forall i k, nth_error (calls s) i = Some k -> gA (c_phase k) = false.
+  Proof.
+    intros R H i k Hk. rewrite forallb_forall in H.
+    assert (Hi : (i < length (m_calls m))%nat).
+    { rewrite (mr_len _ _ R). apply nth_error_Some. congruence. }
+    specialize (H i ltac:(apply in_seq; lia)).
+    assert (Hp : ph s i = Some (c_phase k)) by (unfold ph; rewrite Hk; reflexivity).
+    destruct (mr_phase _ _ R i _ Hp) as [D1 D2 D3 D4]. rewrite D2, D4 in H.
+    destruct (c_phase k); try reflexivity; discriminate.
+  Qed.
+
+  Lemma reclaimed m s :
+    Live s -> Mrel m s -> cancels s = [] ->
+    forallb (fun i => done_idx m i || mem_nat i (m_abandoned m)) (seq 0 (length (m_calls m))) = true ->
+    inflight s = [].
+  Proof.
+    intros L R Hc Hd. apply cI_zero_nil. intro id.
+    destruct (CI s id) as [|n] eqn:E; [exact E|exfalso].
+    destruct (l_cov _ L id ltac:(lia)) as [X|X].
+    - rewrite Hc in X. destruct X.
+    - unfold CA in X. rewrite (cP_zero_dead gA (calls s) id (all_dead m s R Hd)) in X. lia.
+  Qed.
+
+  (* the dispatch poll from a live state *)
+  Lemma poll_dispatch_live m f s r s1 :
+    terminal s = None -> Live s -> Mrel m s -> poll_dispatch tp f s = (r, s1) ->
+    match r with
+    | DReady _ => True
+    | DPending =>
+      (terminal s1 <> None /\ inflight s1 = []) \/
+      (terminal s1 = None /\ Live s1 /\ Mrel m s1 /\
+       (forallb cleanc (plog s1) = true -> cancels s1 = []))
+    | DFuel => terminal s1 = None /\ Live s1 /\ Mrel m s1
+    end.
+  Proof.
+    intros Ht L R. unfold poll_dispatch. rewrite Ht.
+    destruct (run_loop tp f s) as [rr s2] eqn:Er.
+    destruct (Live_run_loop tp f _ _ _ L Er) as [L2 E2].
+    pose proof (PFrame_run_loop _ _ _ _ _ Er) as F2.
+    assert (T2 : terminal s2 = None) by (rewrite (pf_terminal _ _ F2); exact Ht).
+    assert (R2 : Mrel m s2).
+    { eapply Mrel_same; try exact R; try reflexivity; [apply F2|exact E2]. }
+    destruct rr.
+    - intros [= <- <-]. exact I.
+    - pose proof (inflight_shut_down (upd_term s2 (Some a)) a) as Hi.
+      pose proof (IFrame_shut_down (upd_term s2 (Some a)) a) as F3.
+      destruct (shut_down _ a) as [b s3]. cbn [snd] in *.
+      destruct b; intros [= <- <-]; [exact I|].
+      left. split; [|exact Hi]. rewrite (pf_terminal _ _ (if_p _ _ F3)). discriminate.
+    - intros [= <- <-]. right. split; [exact T2|]. split; [exact L2|]. split; [exact R2|].
+      intro C. eapply rl_drained; eassumption.
+    - intros [= <- <-]. auto.
+  Qed.
+
+  Lemma J_step maxif m s o s' os :
+    J m s -> (next_id s + 1 < two64)%N -> step tp fuel_of s o = (s', os) ->
+    forallb (gauge_ok maxif) os = true ->
+    v11 (fst (chk_obs maxif o m os)) = true /\ J (snd (chk_obs maxif o m os)) s'.
+  Proof.
+    intros HJ Hw H Hg.
+    assert (User : o <> PollDispatch -> o <> DropDispatch -> J (snd (chk_obs maxif o m os)) s').
+    { intros N1 N2. pose proof (UFrame_step _ _ _ _ _ _ H N1 N2) as F.
+      destruct HJ as [HJ|[[HJ1 HJ2]|(HJ1 & HJ2 & HJ3)]].
+      - left. rewrite (inact_U _ _ F). exact HJ.
+      - right; left. rewrite (uf_terminal _ _ F), (uf_inflight _ _ F). auto.
+      - right; right. rewrite (uf_terminal _ _ F). split; [exact HJ1|]. split.
+        + eapply Live_step_user; eassumption.
+        + eapply Mrel_step_user; try eassumption. apply HJ2. }
+    destruct o; try (split; [|apply User; discriminate]; cbn [step] in H; injection H as _ <-; reflexivity).
+    - (* PollCall *)
+      split; [|apply User; discriminate]. cbn [step] in H. destruct (poll_call s i) as [r s1].
+      injection H as _ <-. destruct r; reflexivity.
+    - (* PollDispatch *)
+      clear User. cbn [step] in H. unfold chk_obs.
+      destruct (finished s) eqn:Ef.
+      { injection H as <- <-. cbn [fst snd]. split; [reflexivity|]. left. unfold inact. rewrite Ef. reflexivity. }
+      destruct (dropped s) eqn:Ed.
+      { injection H as <- <-. cbn [fst snd]. split; [reflexivity|]. left. unfold inact. rewrite Ef, Ed. reflexivity. }
+      set (s0 := upd_tr s (tr s) (fused s) []) in *.
+      destruct (poll_dispatch tp (fuel_of s0) s0) as [r s1] eqn:Ep.
+      set (s2 := match r with DReady d => upd_fin s1 (Some d) (dropped s1) | _ => s1 end) in *.
+      injection H as <- <-. unfold gauges in *. cbn [app] in *.
+      pose proof (chk_calls_v11 maxif (plog s1) (rec_op (T := T) m PollDispatch)) as V.
+      pose proof (chk_calls_snd maxif (rec_op (T := T) m PollDispatch) (plog s1)) as M2.
+      destruct (chk_calls maxif (rec_op (T := T) m PollDispatch) (plog s1)) as [v m2].
+      cbn [fst snd] in V, M2. destruct (c_poll _ _ _) as [okc c2]. cbn [fst snd vand v11].
+      rewrite V. cbn [forallb gauge_ok andb] in Hg. rewrite andb_true_r in Hg. rewrite Hg. cbn [andb].
+      assert (Em : m_done m2 = m_done m /\ m_abandoned m2 = m_abandoned m /\ m_calls m2 = m_calls m /\
+                   m_polled m2 = m_polled m /\ m_closing m2 = m_closing m /\ m_handles m2 = m_handles m).
+      { rewrite M2, mrun_done, mrun_abandoned, mrun_calls, mrun_polled, mrun_closing, mrun_handles.
+        cbn [rec_op]. repeat split. }
+      destruct Em as (M3 & M4 & M5 & M6 & M7 & M8).
+      set (mf := upd_m m2 _ _ _ _ _ _ _ _ _ _).
+      assert (Fin : forall s3, Mrel m s3 -> Mrel mf (upd_tr s3 (tr s3) (fused s3) [])).
+      { intros s3 R3. eapply Mrel_same; try exact R3; try reflexivity; assumption. }
+      assert (Dead : forall d, r = DReady d -> inact (upd_tr s2 (tr s2) (fused s2) []) = true).
+      { intros d ->. reflexivity. }
+      destruct HJ as [HJ|[[HJ1 HJ2]|(HJ1 & HJ2 & HJ3)]].
+      + unfold inact in HJ. rewrite Ef, Ed in HJ. discriminate.
+      + (* the dispatch has already failed *)
+        assert (Hi : inflight s1 = []).
+        { unfold poll_dispatch in Ep. change (terminal s0) with (terminal s) in Ep.
+          destruct (terminal s) as [a|]; [|congruence].
+          pose proof (inflight_shut_down s0 a) as X. destruct (shut_down s0 a) as [b s3].
+          cbn [snd] in X. destruct b; injection Ep as _ <-; exact X. }
+        assert (Ht : terminal s1 <> None).
+        { unfold poll_dispatch in Ep. change (terminal s0) with (terminal s) in Ep.
+          destruct (terminal s) as [a|] eqn:Et; [|congruence].
+          pose proof (IFrame_shut_down s0 a) as X. destruct (shut_down s0 a) as [b s3].
+          cbn [snd] in X.
+          assert (Y : terminal s3 = Some a) by (rewrite (pf_terminal _ _ (if_p _ _ X)); exact Et).
+          destruct b; injection Ep as _ <-; congruence. }
+        assert (Hi2 : inflight s2 = []) by (unfold s2; destruct r; exact Hi).
+        rewrite Hi2. cbn [length N.of_nat N.eqb]. rewrite orb_true_r. split; [reflexivity|].
+        destruct r as [d| |]; [left; eapply Dead; reflexivity|right; left|right; left];
+          cbn [terminal inflight upd_tr]; auto.
+      + (* live *)
+        assert (L0 : Live s0) by (eapply Live_X; [apply XFrame_upd_tr|exact HJ2]).
+        assert (R0 : Mrel m s0) by (eapply Mrel_same; try exact HJ3; reflexivity).
+        pose proof (poll_dispatch_live m _ s0 r s1 HJ1 L0 R0 Ep) as P.
+        destruct r as [d| |].
+        * cbn [is_pending andb negb orb]. split; [reflexivity|]. left. eapply Dead. reflexivity.
+        * destruct P as [[P1 P2]|(P1 & P2 & P3 & P4)].
+          -- unfold s2. rewrite P2. cbn [length N.of_nat N.eqb]. rewrite orb_true_r.
+             split; [reflexivity|]. right; left. cbn [terminal inflight upd_tr]. auto.
+          -- split.
+             ++ cbn [is_pending andb]. unfold s2.
+                destruct (clean_log (plog s1)) eqn:Cl; [|reflexivity].
+                destruct (m_first_err m2); [reflexivity|]. cbn [andb].
+                destruct (forallb _ (seq 0 (length (m_calls m2)))) eqn:Fa; [|reflexivity].
+                cbn [negb orb].
+                assert (Hc : cancels s1 = []) by (apply P4, clean_log_cleanc, Cl).
+                assert (Hi : inflight s1 = []).
+                { apply (reclaimed m s1 P2 P3 Hc). rewrite <- M5.
+                  erewrite forallb_ext; [exact Fa|]. intro i. unfold done_idx. rewrite M3, M4. reflexivity. }
+                rewrite Hi. reflexivity.
+             ++ right; right. cbn [terminal upd_tr]. split; [exact P1|]. split.
+                ** eapply Live_X; [apply XFrame_upd_tr|exact P2].
+                ** apply Fin, P3.
+        * destruct P as (P1 & P2 & P3). cbn [is_pending andb negb orb]. split; [reflexivity|].
+          right; right. cbn [terminal upd_tr]. split; [exact P1|]. split.
+          -- eapply Live_X; [apply XFrame_upd_tr|exact P2].
+          -- apply Fin, P3.
+    - (* DropDispatch *)
+      clear User. cbn [step] in H. injection H as <- <-. unfold chk_obs. cbn [fst snd].
+      split; [reflexivity|]. left. destruct (dropped s) eqn:Ed; unfold inact.
+      + rewrite Ed. destruct (finished s); reflexivity.
+      + unfold drop_dispatch. cbn [dropped upd_fin finished]. destruct (finished _); reflexivity.
+  Qed.
+End Top.
